@@ -217,23 +217,30 @@ for n in ["c14_lookups", "c14_iter_root", "c14_iter_walk", "c14_iter_storage", "
             assumes=[A_LOCK, A_SHAPE, A_UPTABLE])
 
 # ---------------------------------------------------------------- faults (C12 / C13)
-A_FAULT = "environment: FaultyFile - each read/write/seek/flush of the armed phase may fail (solver-chosen, budget 1)"
-harness("c12_read_fault_retry", props=["C12"], timeout=3000, mem=10, variant="buf8", fs=8192, stubs=[FMT, "Stream :: minialloc"],
-        what="second buffered read of a 100-byte stream with one read/seek fault anywhere in the refill: Ok results equal the true content; after Err the position is unchanged and the retry returns the true content",
-        bounds="8-byte window (scaled), one fault among all underlying read/seek calls of the refill", functions=CACHE_F + STOR_F, assumes=[A_FAULT, A_BUF8, A_UPG, A_SHAPE])
-harness("c13_flush_fault_retry", props=["C13"], timeout=3000, mem=10, variant="buf8", fs=8192, stubs=[FMT, STUB_COPY, "Stream :: minialloc"],
-        what="buffered 6-byte write then flush with one write/seek/flush fault anywhere: the fault surfaces as Err; a later flush that returns Ok means a fresh handle reads the bytes back",
-        bounds="one fault among all underlying write/seek/flush calls of the write-back", functions=CACHE_F + STOR_F, assumes=[A_FAULT, A_BUF8, A_UPG, A_SHAPE])
-harness("c13_free_fault_retry", props=["C13"], timeout=1800, mem=10, stubs=[FMT],
-        what="free_chain of a 3-sector chain with one write/seek fault anywhere, then a retry: the fault surfaces, nothing panics, no sector is on the free list twice and every listed sector is FREE",
-        bounds="4 sectors, one fault", functions=ALLOC_F, assumes=[A_FAULT, A_SHAPE])
+A_FAULT = "environment: FaultAt backend - exactly the at-th read/seek (C12) or write/seek/flush (C13) call of the armed phase fails; at is concrete per instance (the position k of the property's quantifier is enumerated by instances)"
+for (n, tier) in [("c12_read_fault_at0", "quick"), ("c12_read_fault_at1", "quick"), ("c12_read_fault_at2", "quick"), ("c12_read_fault_at3", "thorough"), ("c12_read_fault_at5", "thorough")]:
+    harness(n, props=["C12"], tier=tier, timeout=5400, mem=10, variant="buf8", fs=4096, stubs=[FMT, "Stream :: minialloc"],
+            what="second buffered read of a 100-byte stream (real storage layers) with the k-th underlying read/seek call of the refill failing: an Ok result equals the true content; after Err the position is unchanged and the retry returns the true content",
+            bounds="8-byte window (scaled); one fault at call index k of the refill; stream content symbolic", functions=CACHE_F + STOR_F, assumes=[A_FAULT, A_BUF8, A_UPG, A_SHAPE])
+for (n, tier) in [("c13_flush_fault_at0", "quick"), ("c13_flush_fault_at1", "quick"), ("c13_flush_fault_at2", "thorough"), ("c13_flush_fault_at4", "quick"), ("c13_flush_fault_at7", "thorough"), ("c13_flush_fault_at10", "thorough")]:
+    harness(n, props=["C13"], tier=tier, timeout=5400, mem=10, variant="buf8", fs=4096, stubs=[FMT, STUB_COPY, "Stream :: minialloc"],
+            what="buffered 6-byte write then flush (real storage layers) with the k-th underlying write/seek/flush call failing: the fault surfaces as Err; a later flush that returns Ok means a fresh handle reads the bytes back",
+            bounds="one fault at call index k of the write-back; written bytes symbolic", functions=CACHE_F + STOR_F, assumes=[A_FAULT, A_BUF8, A_UPG, A_SHAPE])
+for (n, tier) in [("c13_free_fault_at0", "quick"), ("c13_free_fault_at1", "quick"), ("c13_free_fault_at2", "thorough"), ("c13_free_fault_at3", "quick"), ("c13_free_fault_at5", "thorough")]:
+    harness(n, props=["C13"], tier=tier, timeout=1800, mem=6, stubs=[FMT],
+            what="free_chain of a 3-sector chain with the k-th write/seek call failing, then a retry: the fault surfaces, nothing panics, no sector is on the free list twice and every listed sector is FREE",
+            bounds="4 sectors, one fault at call index k", functions=ALLOC_F, assumes=[A_FAULT, A_SHAPE])
 
 # ---------------------------------------------------------------- chunked transfers (C18)
-A_CHUNK = "environment: ChunkyFile - every read/write may transfer a solver-chosen short count or return Interrupted (budget 2)"
-for (n, tier) in [("chunky_init_zero", "quick"), ("chunky_init_fat", "quick"), ("chunky_dirent_roundtrip", "thorough"), ("chunky_stor_write_read", "thorough")]:
-    harness(n, props=["C18"], tier=tier, timeout=3000, mem=10, stubs=[FMT] + ([STUB_COPY] if n != "chunky_dirent_roundtrip" else []),
-            what="same assertions as the plain harness, over a backend that splits or interrupts transfers arbitrarily",
-            bounds="two short/interrupted transfers per harness", functions=["Sectors::init_sector", "SectorInit::initialize", "DirEntry::write_to", "DirEntry::read_from"] + STOR_F,
+A_CHUNK = "environment: Chunky backend - the at-th read/write call transfers 1 byte, n-1 bytes, or returns Interrupted (position and kind concrete per instance)"
+for (n, tier) in [("chunky_init_zero_one", "quick"), ("chunky_init_zero_short", "thorough"), ("chunky_init_zero_intr", "quick"),
+                  ("chunky_init_fat_one", "quick"), ("chunky_init_fat_intr", "thorough"), ("chunky_dirent_one", "quick"),
+                  ("chunky_dirent_intr", "thorough"), ("chunky_stor_first_one", "quick"), ("chunky_stor_second_short", "thorough"),
+                  ("chunky_stor_first_intr", "thorough")]:
+    harness(n, props=["C18"], tier=tier, timeout=3000, mem=8, stubs=[FMT] + ([STUB_COPY] if "dirent" not in n else []),
+            what="same assertions as the plain harness, over a backend in which one chosen read/write call is cut to 1 byte, to n-1 bytes, or refused with Interrupted",
+            bounds="one disturbed transfer per run, position and kind concrete per instance; data symbolic",
+            functions=["Sectors::init_sector", "SectorInit::initialize", "DirEntry::write_to", "DirEntry::read_from"] + STOR_F,
             assumes=[A_CHUNK, A_IOCOPY])
 
 # ---------------------------------------------------------------- properties
@@ -342,14 +349,14 @@ QUICK.update({
             "api_ref_remove_stream_on_storage", "api_ref_storage_on_stream", "api_ref_escape_root", "api_ref_clsid_on_stream",
             "cache_c_refused_seeks_change_nothing_min"],
     "C11": ["alloc_next_total", "chain_new_total"],
-    "C12": ["c12_read_fault_retry", "stor_read_cross"],
-    "C13": ["c13_flush_fault_retry", "c13_free_fault_retry", "cache_c_write_flush_write_read_min"],
+    "C12": ["c12_read_fault_at0", "c12_read_fault_at1", "c12_read_fault_at2", "stor_read_cross"],
+    "C13": ["c13_flush_fault_at0", "c13_flush_fault_at1", "c13_flush_fault_at4", "c13_free_fault_at0", "c13_free_fault_at1", "c13_free_fault_at3", "cache_c_write_flush_write_read_min"],
     "C14": ["c14_lookups", "c14_iter_root", "c14_iter_walk", "c14_iter_storage", "c14_stream_ops"],
     "C15": ["alloc_begin_free13", "alloc_extend_free3", "alloc_free_chain3", "alloc_free_after3", "mini_begin_reuse",
             "mini_begin_after_empty", "mini_free_tail2", "mini_free_all", "dir_ins_n3_s0_g1", "big_4096_to_100"],
     "C16": ["dirent_parse_storage_v3", "dirent_parse_stream_v3", "dirent_parse_root_v3", "dirent_parse_badtype_v3",
             "alloc_validate_rel", "dirent_root_name_lower", "dirent_rt_root"],
     "C17": ["dirent_rt_storage_2", "dirent_rt_root", "api_setters", "dir_ins_n3_s0_g1", "hdr_roundtrip"],
-    "C18": ["chunky_init_zero", "chunky_init_fat", "chunky_dirent_roundtrip", "cache_c_write_longer_than_buffer_min",
+    "C18": ["chunky_init_zero_one", "chunky_init_zero_intr", "chunky_init_fat_one", "chunky_dirent_one", "chunky_stor_first_one", "cache_c_write_longer_than_buffer_min",
             "cache_c_write_longer_than_buffer_b12", "cache_c_read_then_shrink_inside_window_min", "cache_c_read_then_shrink_inside_window_b32"],
 })
